@@ -21,14 +21,21 @@ impl ExecutionFrontier {
     fn advance(&self, mut start: usize) {
         loop {
             let mut end = start;
-            while end < self.executed.len() && self.executed[end].load(Ordering::Acquire) {
+            while end < self.executed.len() && {
+                vpoint!(CURSOR, "XF_AdvExec");
+                let set = self.executed[end].load(Ordering::Acquire);
+                vemit!(CURSOR, "XF_AdvExec", "i" => end, "set" => set);
+                set
+            } {
                 end += 1;
             }
             if end == start {
                 return;
             }
 
+            vpoint!(CURSOR, "XF_AdvMax");
             let current = self.frontier.fetch_max(end, Ordering::AcqRel);
+            vemit!(CURSOR, "XF_AdvMax", "end" => end, "prev" => current);
             start = max(current, end);
         }
     }
@@ -38,15 +45,21 @@ impl ExecutionFrontier {
     /// Only the transaction that fills the current gap attempts to advance the frontier.
     /// A single atomic update publishes the whole contiguous run that is already complete.
     fn publish(&self, index: usize) {
+        vpoint!(CURSOR, "XF_PubLoad1");
         let frontier = self.frontier.load(Ordering::Acquire);
+        vemit!(CURSOR, "XF_PubLoad1", "i" => index, "frontier" => frontier);
         if index < frontier {
             return;
         }
 
+        vpoint!(CURSOR, "XF_PubStore");
         self.executed[index].store(true, Ordering::Release);
+        vemit!(CURSOR, "XF_PubStore", "i" => index);
         // Reload after publishing. The frontier may have reached `index` between the first load
         // and the store; using the stale value would leave the newly filled gap unadvanced.
+        vpoint!(CURSOR, "XF_PubLoad2");
         let frontier = self.frontier.load(Ordering::Acquire);
+        vemit!(CURSOR, "XF_PubLoad2", "i" => index, "frontier" => frontier);
         if index == frontier {
             self.advance(frontier);
         }
@@ -56,12 +69,22 @@ impl ExecutionFrontier {
     ///
     /// Readers participate in lock-free progress by advancing a ready frontier if needed.
     fn current(&self) -> usize {
+        vpoint!(CURSOR, "XF_CurLoad");
         let frontier = self.frontier.load(Ordering::Acquire);
+        vemit!(CURSOR, "XF_CurLoad", "frontier" => frontier);
         // Lock-free helpers may observe a completion whose publishing worker has not advanced the
         // frontier yet. Help it here so a delayed publisher cannot stall validation progress.
-        if frontier < self.executed.len() && self.executed[frontier].load(Ordering::Acquire) {
+        if frontier < self.executed.len() && {
+            vpoint!(CURSOR, "XF_CurExec");
+            let set = self.executed[frontier].load(Ordering::Acquire);
+            vemit!(CURSOR, "XF_CurExec", "i" => frontier, "set" => set);
+            set
+        } {
             self.advance(frontier);
-            return self.frontier.load(Ordering::Acquire);
+            vpoint!(CURSOR, "XF_CurReload");
+            let frontier = self.frontier.load(Ordering::Acquire);
+            vemit!(CURSOR, "XF_CurReload", "frontier" => frontier);
+            return frontier;
         }
         frontier
     }
@@ -106,9 +129,16 @@ impl SchedulerContext {
         // Publish invalidation before making the index claimable. Finality advances contiguously
         // and checks status plus this timestamp under transaction locks, so a validation predating
         // this rewind cannot enter the stable prefix afterward.
+        vpoint!(SCHED, "T_Rewind1");
         let timestamp = self.logical_clock.fetch_add(1, Ordering::AcqRel);
+        vemit!(CURSOR, "T_Clock", "ts" => timestamp);
+        vpoint!(CURSOR, "T_Lower");
         self.lower_timestamps[index].fetch_max(timestamp, Ordering::AcqRel);
+        vemit!(CURSOR, "T_Lower", "idx" => index, "ts" => timestamp);
+        vemit!(SCHED, "T_Rewind1", "idx" => index, "ts" => timestamp);
+        vpoint!(SCHED, "T_Rewind2");
         let previous = self.validation.rewind(index);
+        vemit!(SCHED, "T_Rewind2", "idx" => index, "prev" => previous);
         if previous > index {
             self.validation_resets.fetch_add(1, Ordering::Relaxed);
         }
@@ -116,7 +146,10 @@ impl SchedulerContext {
 
     #[inline]
     pub(super) fn logical_timestamp(&self) -> usize {
-        self.logical_clock.fetch_add(1, Ordering::AcqRel)
+        vpoint!(CURSOR, "T_Now");
+        let timestamp = self.logical_clock.fetch_add(1, Ordering::AcqRel);
+        vemit!(CURSOR, "T_Now", "ts" => timestamp);
+        timestamp
     }
 
     #[inline]
@@ -126,7 +159,9 @@ impl SchedulerContext {
 
     #[inline]
     pub(super) fn unconfirmed(&self, index: usize, timestamp: usize) {
+        vpoint!(CURSOR, "T_Unconf");
         self.unconfirmed_timestamps[index].fetch_max(timestamp, Ordering::AcqRel);
+        vemit!(CURSOR, "T_Unconf", "idx" => index, "ts" => timestamp);
     }
 
     #[inline]
@@ -161,7 +196,26 @@ impl SchedulerContext {
 
     #[inline]
     pub(super) fn validation_idx(&self) -> usize {
+        vpoint!(CURSOR, "VC_Get");
+        let index = self.validation.get();
+        vemit!(CURSOR, "VC_Get", "cur" => index);
+        index
+    }
+
+    /// Raw loads for event fields (no schedule points).
+    #[cfg(grevm_verif)]
+    pub(super) fn verif_validation_idx(&self) -> usize {
         self.validation.get()
+    }
+
+    #[cfg(grevm_verif)]
+    pub(super) fn verif_lower(&self, index: usize) -> usize {
+        self.lower_timestamps[index].load(Ordering::Acquire)
+    }
+
+    #[cfg(grevm_verif)]
+    pub(super) fn verif_unconf(&self, index: usize) -> usize {
+        self.unconfirmed_timestamps[index].load(Ordering::Acquire)
     }
 
     #[inline]
@@ -171,12 +225,18 @@ impl SchedulerContext {
 
     #[inline]
     pub(super) fn lower_timestamp(&self, index: usize) -> usize {
-        self.lower_timestamps[index].load(Ordering::Acquire)
+        vpoint!(CURSOR, "T_LowerLoad");
+        let timestamp = self.lower_timestamps[index].load(Ordering::Acquire);
+        vemit!(CURSOR, "T_LowerLoad", "idx" => index, "ts" => timestamp);
+        timestamp
     }
 
     #[inline]
     pub(super) fn unconfirmed_timestamp(&self, index: usize) -> usize {
-        self.unconfirmed_timestamps[index].load(Ordering::Acquire)
+        vpoint!(CURSOR, "T_UnconfLoad");
+        let timestamp = self.unconfirmed_timestamps[index].load(Ordering::Acquire);
+        vemit!(CURSOR, "T_UnconfLoad", "idx" => index, "ts" => timestamp);
+        timestamp
     }
 
     #[inline]
@@ -195,7 +255,9 @@ impl SchedulerContext {
     #[inline]
     pub(super) fn next_validation_idx(&self, executing_idx: usize) -> Option<usize> {
         let validation_limit = executing_idx.min(self.execution_frontier.current());
-        self.validation.claim_before(validation_limit)
+        let claimed = self.validation.claim_before(validation_limit);
+        vemit!(CURSOR, "VC_Claim", "limit" => validation_limit, "idx" => claimed);
+        claimed
     }
 }
 
